@@ -106,6 +106,7 @@ type State struct {
 	envN     int
 	known    [][]byte
 	syncMaps map[*value]*mapV
+	atomCells map[*value]*value
 }
 
 func (st *State) curFnOr(cc *ssa.CallCommon) *ssa.Function {
@@ -1068,6 +1069,9 @@ func (fr *frame) slice(in *ssa.Slice) value {
 	}
 	switch x := x.(type) {
 	case *Str:
+		if x.Blob != nil && (in.Low != nil || in.High != nil) {
+			panic(pathEnd{kind: "unsupported", msg: "raw byte access into an encoded document"})
+		}
 		if hi == nil {
 			hi = x.Len
 		}
@@ -1262,13 +1266,33 @@ func (fr *frame) builtin(b *ssa.Builtin, args []value, cc *ssa.CallCommon) value
 		if args[1] == nil {
 			return args[0]
 		}
+		if d, ok := args[0].(*Str); ok {
+			// byte slices kept as strings: concatenation when both lengths are known
+			s, ok2 := args[1].(*Str)
+			if !ok2 || d.Blob != nil || s.Blob != nil || !d.Len.IsConst() || !s.Len.IsConst() {
+				panic(pathEnd{kind: "unsupported", msg: "append on byte slices of symbolic length"})
+			}
+			out := &Str{Len: BVConstI(d.Len.C.Int64()+s.Len.C.Int64(), 64)}
+			for i := 0; i < int(d.Len.C.Int64()); i++ {
+				out.B = append(out.B, d.at(i))
+			}
+			for i := 0; i < int(s.Len.C.Int64()); i++ {
+				out.B = append(out.B, s.at(i))
+			}
+			return out
+		}
 		if s, ok := args[1].(*Str); ok {
 			c := fr.st.conv(types.NewSlice(types.Typ[types.Byte]), types.Typ[types.String], s)
 			if cs, ok := c.([]value); ok {
 				return append(args[0].([]value), cs...)
 			}
 		}
-		return append(args[0].([]value), args[1].([]value)...)
+		a0, ok0 := args[0].([]value)
+		a1, ok1 := args[1].([]value)
+		if !ok0 || !ok1 {
+			panic(pathEnd{kind: "unsupported", msg: fmt.Sprintf("append of %T to %T", args[1], args[0])})
+		}
+		return append(a0, a1...)
 	case "copy":
 		if d, ok := args[0].(*Str); ok {
 			src := args[1].(*Str)
